@@ -370,6 +370,60 @@ func cmdExport(args []string) int {
 	}
 	inst.Close(ctx)
 
+	// (f) a store of several hundred validators (an export walks the store in more than one read-ahead
+	// window): every exported entry is that key's own record; keys with only one kind of record among them
+	{
+		big, err := NewInstance(ctx, fx, InstanceOpts{AdminIPs: []string{"10.0.0.1"}, Perms: permsFromTbl(stdPermTbl)})
+		if err != nil {
+			return 2
+		}
+		nBig := 400
+		if cf.tier == "thorough" {
+			nBig = 6000
+		}
+		type bigRec struct{ s, t, p int64 }
+		want := map[[48]byte]bigRec{}
+		for i := 0; i < nBig; i++ {
+			var k [48]byte
+			copy(k[:], rng.Bytes(48))
+			r := bigRec{s: int64(i), t: int64(i + 1 + rng.Intn(5)), p: int64(3*i + rng.Intn(3))}
+			switch i % 7 {
+			case 3:
+				r.p = -1 // has only attested
+			case 5:
+				r.s, r.t = -1, -1 // has only proposed
+			}
+			if r.s >= 0 {
+				if err := big.Rules.VerifPutRaw(ctx, recKey(k[:], 2), encodeAtt(r.s, r.t)); err != nil {
+					return 2
+				}
+			}
+			if r.p >= 0 {
+				if err := big.Rules.VerifPutRaw(ctx, recKey(k[:], 3), encodeProp(r.p)); err != nil {
+					return 2
+				}
+			}
+			want[k] = r
+		}
+		exp, err := big.Rules.ExportSlashingProtection(ctx)
+		if err != nil || len(exp) != len(want) {
+			monFail = append(monFail, fmt.Sprintf("export of a store with %d keys: %d entries (err %v)", len(want), len(exp), err))
+		}
+		bad := 0
+		for k, r := range want {
+			e := exp[k]
+			if e == nil || e.HighestAttestedSourceEpoch != r.s || e.HighestAttestedTargetEpoch != r.t || e.HighestProposedSlot != r.p {
+				bad++
+				if bad <= 3 {
+					monFail = append(monFail, fmt.Sprintf("store of %d keys: key %x... holds attestation %d->%d, proposal %d, but is exported as %+v", len(want), k[:6], r.s, r.t, r.p, e))
+				}
+			}
+		}
+		stats["bigstore.keys"] = len(want)
+		stats["bigstore.wrong"] = bad
+		big.Close(ctx)
+	}
+
 	var b strings.Builder
 	b.WriteString("From DV Require Import Corr.CheckExport.\nLocal Open Scope Z_scope.\nLocal Open Scope string_scope.\n")
 	fmt.Fprintf(&b, "Definition ccases : list ccase := [\n%s].\n", strings.Join(codec, ";\n"))
